@@ -4,8 +4,10 @@
 
 use super::p2::Val;
 
-#[derive(Clone, Debug)]
+#[derive(Clone)]
 pub enum Expect {
+    /// any value satisfying the predicate (description, predicate)
+    Pred(String, std::rc::Rc<dyn Fn(&Val) -> bool>),
     /// exactly this value
     Is(Val),
     /// a runtime error
@@ -308,6 +310,8 @@ pub fn satisfies(e: &Expect, got: &Result<Val, String>) -> bool {
         (Expect::Is(v), Ok(g)) => v.same(g) || both_zero_float(v, g),
         (Expect::Is(_), Err(_)) => false,
         (Expect::AnyOf(vs, _), Ok(g)) => vs.iter().any(|v| v.same(g)),
+        (Expect::Pred(_, f), Ok(g)) => f(g),
+        (Expect::Pred(..), Err(_)) => false,
         (Expect::AnyOf(_, or_err), Err(_)) => *or_err,
     }
 }
@@ -321,10 +325,21 @@ pub fn show_expect(e: &Expect) -> String {
         Expect::Is(v) => v.show(),
         Expect::Error => "runtime error".into(),
         Expect::DontCare => "don't care".into(),
+        Expect::Pred(d, _) => d.clone(),
         Expect::AnyOf(vs, or_err) => format!(
             "one of [{}]{}",
             vs.iter().map(|v| v.show()).collect::<Vec<_>>().join(", "),
             if *or_err { " or a runtime error" } else { "" }
         ),
     }
+}
+
+impl std::fmt::Debug for Expect {
+    fn fmt(&self, f: &mut std::fmt::Formatter) -> std::fmt::Result {
+        write!(f, "{}", show_expect(self))
+    }
+}
+
+pub fn pred(desc: &str, f: impl Fn(&Val) -> bool + 'static) -> Expect {
+    Expect::Pred(desc.to_string(), std::rc::Rc::new(f))
 }
